@@ -9,6 +9,8 @@ import (
 	"math/big"
 	"regexp"
 	"strings"
+
+	"github.com/wolimst/lib-secs2-hsms-go/pkg/ast"
 )
 
 func init() {
@@ -508,6 +510,8 @@ func suiteC09(c *Ctx) {
 		label := "compose"
 		if ell {
 			label = "with-ellipsis"
+		} else if g.ownVars {
+			label = "value-brings-variables" // outside the composition law's quantifier
 		}
 		single := g.add(Step{Op: "FI", Ref: t, Map: full})
 		cur := t
@@ -523,12 +527,19 @@ func suiteC09(c *Ctx) {
 				g.add(Step{Op: "SS", Ref: m, Sid: 7, Sys: []byte{0, 0, 0, 9}})
 			}
 		}
-		// fill of the template inside a message, in steps
-		if g.chance(0.3) {
-			m := g.add(Step{Op: "NM", Name: []byte("tpl"), Stream: 3, Func: 5, WBit: 1, Dir: []byte("H<-E"), Ref: t})
+		// fill of the template inside a message whose wait bit and session id are
+		// already set, in steps; and the directly constructed message
+		if g.chance(0.4) {
+			m := g.add(Step{Op: "NM", Name: []byte("tpl"), Stream: 3, Func: 5, WBit: 2, Dir: []byte("H<-E"), Ref: t})
+			m = g.add(Step{Op: "SW", Ref: m, B: true})
+			sys := g.sysBytes()
+			sid := g.sessionID()
+			m = g.add(Step{Op: "SS", Ref: m, Sid: sid, Sys: sys})
 			for _, part := range splitMap(g, full) {
 				m = g.add(Step{Op: "FM", Ref: m, Map: part})
 			}
+			g.add(Step{Op: "NH", Name: []byte("tpl"), Stream: 3, Func: 5, WBit: 1, Dir: []byte("H<-E"), Ref: single, Sid: sid, Sys: sys})
+			label += "+msg"
 		}
 		c.emit(Case{label, g.steps, false})
 	}
@@ -581,8 +592,22 @@ func (g *Gen) typedFill(steps []Step, vars []string, partial bool) []KV {
 		case k == "F8":
 			a = Arg{T: '8', U: g.f64Bits()}
 		default:
-			// a list variable: an item, built earlier? use a fresh small leaf
-			a = Arg{T: 's', S: g.freshName()} // renames the variable
+			// a list variable: an item (possibly bringing its own variable), or a new name
+			switch g.pick(3) {
+			case 0:
+				a = Arg{T: 's', S: g.freshName()} // renames the variable
+			case 1:
+				a = Arg{T: 'r', Ref: g.add(Step{Op: "NU", W: 2, Args: []Arg{{T: 'i', IK: KInt, I: int64(g.pick(65536))}}})}
+			default:
+				inner := g.freshName()
+				g.count("c09:value-brings-variable")
+				g.ownVars = true
+				a = Arg{T: 'r', Ref: g.add(Step{Op: "NI", W: 1, Args: []Arg{{T: 'i', IK: KInt, I: 0}, {T: 's', S: inner}}})}
+				if g.chance(0.6) {
+					// the same map also has a key for the variable the value brings: it must be inserted as is
+					out = append(out, KV{inner, Arg{T: 'i', IK: KInt, I: int64(g.pick(100))}})
+				}
+			}
 		}
 		out = append(out, KV{[]byte(v), a})
 	}
@@ -591,7 +616,18 @@ func (g *Gen) typedFill(steps []Step, vars []string, partial bool) []KV {
 
 // composition law on the library alone: filling in several steps equals filling once
 func monitorC09(c *Ctx, id string, cs Case, e *Exec, final []string) {
-	if cs.Label != "compose" {
+	if strings.HasSuffix(cs.Label, "+msg") {
+		// the message filled in steps and the one constructed directly around the
+		// filled item: identical when both exist
+		n := len(final)
+		if strings.HasPrefix(final[n-1], "M ") && strings.HasPrefix(final[n-2], "M ") {
+			c.stats["monitor:filled-vs-direct-message"]++
+			if final[n-1] != final[n-2] {
+				c.hit(id, cs, "filled-message-differs", fmt.Sprintf("filled in steps: %s; constructed directly: %s", short(final[n-2]), short(final[n-1])))
+			}
+		}
+	}
+	if !strings.HasPrefix(cs.Label, "compose") {
 		return
 	}
 	// the first FI is the single fill; the chain that follows starts from the same template
@@ -660,6 +696,43 @@ func renames(m []KV) bool {
 type shape struct {
 	kind byte // 'u' leaf with variable, 'v' list variable, 'a' ascii variable, 'c' constant leaf, 'e' ellipsis, 'l' list, 'm' leaf with two variables
 	sub  []shape
+	name string // for 'e': the ellipsis name
+}
+
+// nameEllipses names the ellipses of a tree: a single one "...", several
+// "...[k]" in order of appearance (what the SML parser produces), or, with
+// scramble, arbitrary distinct indices
+func nameEllipses(s *shape, scramble func(int) int) {
+	n := 0
+	var count func(x *shape)
+	count = func(x *shape) {
+		if x.kind == 'e' {
+			n++
+		}
+		for i := range x.sub {
+			count(&x.sub[i])
+		}
+	}
+	count(s)
+	k := 0
+	var assign func(x *shape)
+	assign = func(x *shape) {
+		if x.kind == 'e' {
+			switch {
+			case n == 1 && scramble == nil:
+				x.name = "..."
+			case scramble != nil:
+				x.name = fmt.Sprintf("...[%d]", scramble(k))
+			default:
+				x.name = fmt.Sprintf("...[%d]", k)
+			}
+			k++
+		}
+		for i := range x.sub {
+			assign(&x.sub[i])
+		}
+	}
+	assign(s)
 }
 
 func (g *Gen) buildShape(s shape) Arg {
@@ -675,7 +748,7 @@ func (g *Gen) buildShape(s shape) Arg {
 	case 'v':
 		return Arg{T: 's', S: g.plainName()}
 	case 'e':
-		return Arg{T: 's', S: []byte("...")}
+		return Arg{T: 's', S: []byte(s.name)}
 	}
 	var as []Arg
 	for _, c := range s.sub {
@@ -717,6 +790,14 @@ func enumShapes(depth, maxSlots int, leaves []byte) []shape {
 	}
 	rec(nil, false)
 	return res
+}
+
+func cloneShape(s shape) shape {
+	r := shape{kind: s.kind, name: s.name}
+	for _, c := range s.sub {
+		r.sub = append(r.sub, cloneShape(c))
+	}
+	return r
 }
 
 func hasEllipsis(s shape) bool {
@@ -836,7 +917,9 @@ func suiteC10(c *Ctx) {
 			continue
 		}
 		g := c.gen()
-		root := g.buildShape(s)
+		s2 := cloneShape(s)
+		nameEllipses(&s2, nil)
+		root := g.buildShape(s2)
 		c.ellipsisCase(g, root.Ref, "exhaustive-small")
 	}
 	c.stats["c10:shapes-enumerated"] = cnt
@@ -866,6 +949,13 @@ func suiteC10(c *Ctx) {
 		if !hasEllipsis(s) {
 			continue
 		}
+		if g.chance(0.25) {
+			// arbitrary distinct indices, not in order of appearance
+			perm := g.r.Perm(12)
+			nameEllipses(&s, func(k int) int { return perm[k%12] + 12*(k/12) })
+		} else {
+			nameEllipses(&s, nil)
+		}
 		root := g.buildShape(s)
 		c.ellipsisCase(g, root.Ref, "random")
 	}
@@ -877,6 +967,18 @@ var idxSuffix = regexp.MustCompile(`(\[\d+\])+$`)
 // yields n+1 copies of each variable before it, with suffixes [0]..[n]
 func monitorC10(c *Ctx, id string, cs Case, e *Exec, final []string) {
 	for i, s := range cs.Steps {
+		if s.Op == "FI" && final[i] == "P" && s.Ref < len(final) && strings.HasPrefix(final[s.Ref], "I ") {
+			// an assignment of repeat counts only: the expansion must exist
+			only := len(s.Map) > 0
+			for _, kv := range s.Map {
+				if !strings.HasPrefix(string(kv.K), "...") || kv.V.T != 'i' || kv.V.IK != KInt || kv.V.I < 0 {
+					only = false
+				}
+			}
+			if only {
+				c.hit(id, cs, "expansion-refused", fmt.Sprintf("step %d: filling only ellipses of a valid template with counts >= 0 panicked", i))
+			}
+		}
 		if s.Op != "FI" || !strings.HasPrefix(final[i], "I ") {
 			continue
 		}
@@ -982,6 +1084,20 @@ func printedVars(text string) []string {
 }
 
 func monitorC16(c *Ctx, id string, cs Case, e *Exec, final []string) {
+	if c.stats["c16:limit-probe"] == 0 {
+		c.stats["c16:limit-probe"] = 1
+		// the largest variable-free items are still encodable
+		for _, n := range []int{16777215, 16777214, 65536} {
+			it := ast.NewASCIINode(strings.Repeat("a", n))
+			if len(it.Variables()) != 0 || len(it.ToBytes()) != n+4 {
+				c.hit(id, cs, "encodable-iff-limit", fmt.Sprintf("ASCII item of %d characters: %d variables, %d bytes", n, len(it.Variables()), len(it.ToBytes())))
+			}
+			l := ast.NewListNode(it)
+			if len(l.ToBytes()) != n+6 {
+				c.hit(id, cs, "encodable-iff-limit", fmt.Sprintf("list around an ASCII item of %d characters: %d bytes", n, len(l.ToBytes())))
+			}
+		}
+	}
 	for i, o := range final {
 		if !strings.HasPrefix(o, "I ") && !strings.HasPrefix(o, "M ") {
 			continue
